@@ -1,6 +1,7 @@
 (* Byte strings as lists of N, with the Go string operations the models use.
    Model code only: no proofs here beyond tiny reflection lemmas. *)
-From Coq Require Export List NArith ZArith Bool Lia String Ascii.
+From Coq Require Export String Ascii.
+From Coq Require Export List NArith ZArith Bool Lia.
 Export ListNotations.
 Open Scope N_scope.
 
